@@ -174,6 +174,38 @@ theorem hinv_handlerPubs {h : Hub} (hi : h.HInv) (pass : Pub → Bool) (pubs : L
     have hb1 : h.nextId + 1 < U64 := by omega
     exact ih (hinv_publish hi tag size ttl 0 hb1).1 hb
 
+theorem windowEvents_mono (g : Hub) (s1 : RStream) (pass : Pub → Bool) (xs : List WEvent) :
+    g.nextId ≤ (g.windowEvents s1 pass xs).1.nextId := by
+  induction xs generalizing g with
+  | nil => exact Nat.le_refl _
+  | cons y ys ih =>
+    cases y with
+    | pub t sz tl =>
+      simp only [Hub.windowEvents]
+      have h1 := publish_nextId g t sz tl 0
+      have := ih (g.publish t sz tl 0).1
+      omega
+    | stale k =>
+      simp only [Hub.windowEvents]
+      split <;> exact ih g
+
+theorem hinv_windowEvents {h : Hub} (hi : h.HInv) (s1 : RStream) (pass : Pub → Bool) (xs : List WEvent)
+    (hb : (h.windowEvents s1 pass xs).1.nextId + 1 < U64) :
+    (h.windowEvents s1 pass xs).1.HInv := by
+  induction xs generalizing h with
+  | nil => exact hi
+  | cons x xs ih =>
+    cases x with
+    | pub tag size ttl =>
+      simp only [Hub.windowEvents] at hb ⊢
+      have hid := publish_nextId h tag size ttl 0
+      have hm := windowEvents_mono (h.publish tag size ttl 0).1 s1 pass xs
+      have hb1 : h.nextId + 1 < U64 := by omega
+      exact ih (hinv_publish hi tag size ttl 0 hb1).1 hb
+    | stale k =>
+      simp only [Hub.windowEvents] at hb ⊢
+      cases hf : s1.log.find? (fun p => p.offset + k == s1.top) <;> simp only [hf] at hb ⊢ <;> exact ih hi hb
+
 /-- the operations the harness performs -/
 inductive HubOp
   | publish (tag size ttl : Nat)
@@ -191,15 +223,16 @@ def Hub.run (h : Hub) (ops : List HubOp) : Hub := ops.foldl Hub.step h
 
 theorem subscribe_hub_cases (h : Hub) (sp : SubParams) :
     (h.subscribe sp).hub = (h.access 0).1 ∨
-    ∃ pubs, (h.subscribe sp).hub = (((h.access 0).1.handlerPubs sp.filt.pass pubs).1.access 0).1 := by
+    (∃ pubs, (h.subscribe sp).hub = (((h.access 0).1.handlerPubs sp.filt.pass pubs).1.access 0).1) ∨
+    (h.subscribe sp).hub = ((h.access 0).1.windowEvents (h.access 0).2 sp.filt.pass sp.window).1 := by
   unfold Hub.subscribe
   simp only
   split
-  · exact Or.inl rfl
+  · split <;> exact Or.inr (Or.inr rfl)
   · split
     · exact Or.inl rfl
     · split
-      · exact Or.inr ⟨_, rfl⟩
+      · exact Or.inr (Or.inl ⟨_, rfl⟩)
       · exact Or.inl rfl
 
 theorem step_mono (h : Hub) (op : HubOp) : h.nextId ≤ (h.step op).nextId := by
@@ -209,10 +242,14 @@ theorem step_mono (h : Hub) (op : HubOp) : h.nextId ≤ (h.step op).nextId := by
   | tick => simp only [Hub.step]; rw [tick_nextId]; exact Nat.le_refl _
   | subscribe sp =>
     simp only [Hub.step]
-    rcases subscribe_hub_cases h sp with e | ⟨pubs, e⟩
+    rcases subscribe_hub_cases h sp with e | ⟨pubs, e⟩ | e
     · rw [e, (hinv_access_id h 0)]; exact Nat.le_refl _
     · rw [e, hinv_access_id]
       have := handlerPubs_mono (h.access 0).1 sp.filt.pass pubs
+      rw [hinv_access_id] at this
+      exact this
+    · rw [e]
+      have := windowEvents_mono (h.access 0).1 (h.access 0).2 sp.filt.pass sp.window
       rw [hinv_access_id] at this
       exact this
 
@@ -228,11 +265,13 @@ theorem hinv_step {h : Hub} (hi : h.HInv) (op : HubOp) (hb : (h.step op).nextId 
   | tick => exact hinv_tick hi
   | subscribe sp =>
     simp only [Hub.step] at hb ⊢
-    rcases subscribe_hub_cases h sp with e | ⟨pubs, e⟩
+    rcases subscribe_hub_cases h sp with e | ⟨pubs, e⟩ | e
     · rw [e]; exact (hinv_access hi 0).1
     · rw [e] at hb ⊢
       rw [hinv_access_id] at hb
       exact (hinv_access (hinv_handlerPubs (hinv_access hi 0).1 _ pubs hb) 0).1
+    · rw [e] at hb ⊢
+      exact hinv_windowEvents (hinv_access hi 0).1 _ _ _ hb
 
 /-- **every reachable hub state satisfies the invariant**: any sequence of operations from any
 state satisfying it (in particular the initial one) -/
